@@ -17,6 +17,18 @@ def _sig(case, impl, model):
     return None
 
 
+def _equal(case, impl, model):
+    """dec (hand-written and mutated payloads): HOW a malformed payload is refused — an error of whatever text, or a run-time
+    panic that ends the process — is not part of the property; a decoder hardened to return an error where it used to index out
+    of range must not be flagged. Refused-vs-decoded and every decoded value are compared exactly."""
+    if impl == model:
+        return True
+    if case.split(" ", 1)[0] != "dec":
+        return False
+    rej = lambda s: s == "panic" or s.startswith("v=err")
+    return rej(impl) and rej(model)
+
+
 def _nontrivial(case, impl):
     f = case.split(" ")
     if f[0] == "dec":
@@ -47,10 +59,11 @@ PROPS["C12"] = {
             "length forms) or LZF (random token streams incl. overlapping references); serialized by the harness' own serializer, decoded by "
             "the real DecodeDump, compared with logicalOf(tree) and with the spec serializer's digest. dec: hand-written corner payloads + "
             "mutated valid payloads (truncation, bit flips, byte substitution/insertion, type byte change, broken trailer), model decoder vs "
-            "real decoder incl. panics. file: object sequences (db changes, expiries up to 2^64-1, int-looking keys) through rdb.NewEncoder "
+            "real decoder (refused vs decoded, and the decoded value; an error and a run-time panic both count as refused). file: object sequences (db changes, expiries up to 2^64-1, int-looking keys) through rdb.NewEncoder "
             "and the in-repo cupcake encoder -> rdb.NewLoader -> ObjEntry -> BinEntry. ff/pf: float text stand-in vs strconv. "
             "non-trivial = not an empty value / bare trailer; distinct by case text",
     "nontrivial": _nontrivial,
+    "equal": _equal,
     "signature": _sig,
     "trusted": ["strconv.FormatFloat(f,'g',17,64) / ParseFloat: abstract codec with hypothesis FloatText (parse(fmt f)=f, text < 253 bytes); "
                 "driver stand-in Model/FloatText.lean differential-tested (ff/pf cases)",
